@@ -442,6 +442,7 @@ func runC06(c *Ctx) {
 	ruleJ10(c, "J10")
 	ruleJ11(c, "J11")
 	ruleStaleSetting(c, "J12")
+	ruleA11(c, "J13")
 	r.Rule("J9", "MarshalJSON has an arm for every node kind", 4)
 	ruleKindSwitch(c, "J9", "CandidateNode.MarshalJSON")
 	if fn := c.libFunc("parseInt64"); fn != nil {
@@ -664,6 +665,8 @@ func runC13(c *Ctx) {
 	ruleKindSwitch(c, "A8", "CandidateNode.MarshalJSON")
 	rulePF(c, "A9", 20)
 	ruleA10(c, "A10")
+	ruleA11(c, "A11")
+	ruleN11(c, "A12")
 }
 
 // ruleA6: explodeNode descends into every key and value: its recursive calls
